@@ -30,6 +30,8 @@ fn main() {
         cases.push(make_case(&[3, 5, 2], true, vec![ReadExact(2), Seek(4, 0), Read(4), Seek(1, 1), ReadExact(2)]));
         cases.push(make_case(&[3, 5], false, vec![ReadToEnd, Seek(2, 0), Read(4), Seek(0, 2), ReadToEnd]));
         cases.push(make_case(&[3, 5, 2], true, vec![ReadExact(2), Seek(3, 0), Read(4)]));
+        cases.push(make_case(&[3, 5, 2], true, vec![ReadExact(1), SeekIndex(4), ReadExact(2), SeekIndex(3), ReadExact(7), SeekIndex(10), Read(1), SeekIndex(0), ReadToEnd]));
+        cases.push(make_case(&[3, 0, 4], false, vec![SeekIndex(3), ReadExact(2), SeekIndex(7), Read(1), SeekIndex(2), ReadToEnd]));
         let workers = [2usize, 1, 3];
         let choose = [PollMode::Choose];
         let uniform = [PollMode::OneByte, PollMode::PendingEvery, PollMode::Irregular, PollMode::Ready];
@@ -63,19 +65,81 @@ fn main() {
 }
 
 fn format_level_harnesses(ctx: &mut vmc::Ctx) {
+    use format_level::{RCase, Script};
     use vnd::Format;
+
+    ctx.rule("format level: corpus document x script (sequential read through every record API, region queries incl. repeated / overlapping / unknown regions, query_unmapped, read-query-read) x BGZF worker count {1,2} x source adversary (PollReader Choose within the deviation bound; OneByte / PendingEvery / Irregular; CutReader = every set of k window boundaries); the trace of the synchronous reader driven by the same macro-generated driver is the specification; writers: content of every corpus document x record API x worker count x PollWriter mode");
+    ctx.assume("vnd render_* functions and the synchronous readers used to decode writer outputs are deterministic");
+    ctx.assume("the CSI / tabix async readers and writers build their BGZF layer with the default worker count (available_parallelism); it cannot be chosen through their API");
+
+    let env_u32 = |k: &str| std::env::var(k).ok().and_then(|s| s.parse::<u32>().ok());
     let docs = vnd::corpus(ctx.thorough());
-    let all: Vec<format_level::RCase> = docs.iter().filter(|d| !d.big).filter_map(|d| format_level::make_rcase(&docs, d)).collect();
-    eprintln!("[C16] format level: {} reader cases", all.len());
+    let all: Vec<RCase> = docs.iter().filter(|d| !d.big).filter_map(|d| format_level::make_rcase(&docs, d)).collect();
+    // one small document per format for the deeper bounds: the one with the most scripts, then the smallest
+    let mut small: Vec<RCase> = Vec::new();
+    for f in Format::ALL {
+        let mut of: Vec<&RCase> = all.iter().filter(|c| c.format == f && c.expect.iter().any(|t| t.lines.len() > 3)).collect();
+        of.sort_by_key(|c| (std::cmp::Reverse(c.scripts.len()), c.bytes.len()));
+        // FASTA: the CRLF document is the interesting one
+        if f == Format::Fasta {
+            of.sort_by_key(|c| (!c.name.contains("crlf"), c.bytes.len()));
+        }
+        if let Some(c) = of.first() {
+            small.push(c.restricted(&|_| true).unwrap());
+        }
+    }
+    eprintln!("[C16] format level: {} reader cases ({} in the deep set: {})", all.len(), small.len(), small.iter().map(|c| c.name.as_str()).collect::<Vec<_>>().join(" "));
     let workers = [1usize, 2];
     let uniform = [PollMode::OneByte, PollMode::PendingEvery, PollMode::Irregular];
-    ctx.harness(Config::new("fmt_reader_uniform", 0), |ch| format_level::reader_body(ch, &all, &workers, &uniform));
     let choose = [PollMode::Choose];
-    let b: u32 = std::env::var("C16_B").ok().and_then(|s| s.parse().ok()).unwrap_or(ctx.by_tier(1, 2));
+
+    // readers
+    let bu = env_u32("C16_BU").unwrap_or(ctx.by_tier(1, 2));
+    ctx.harness(Config::new("fmt_reader_uniform", bu), |ch| format_level::reader_body(ch, &all, &workers, &uniform));
+    let b = env_u32("C16_B").unwrap_or(ctx.by_tier(1, 2));
     ctx.harness(Config::new("fmt_reader", b), |ch| format_level::reader_body(ch, &all, &workers, &choose));
+    let bd = env_u32("C16_BD").unwrap_or(ctx.by_tier(2, 3));
+    ctx.harness(Config::new("fmt_reader_deep", bd), |ch| format_level::reader_body(ch, &small, &workers, &choose));
+
+    // every single window boundary: all scripts for readers without a BGZF layer; for the BGZF based
+    // ones (the BGZF level harnesses own the block framing) one sequential, the query and the mixed scripts
+    let cut1: Vec<RCase> = all
+        .iter()
+        .filter_map(|c| {
+            if c.workers_apply || matches!(c.format, Format::Csi | Format::Tbi) {
+                let deep = small.iter().any(|s| s.name == c.name);
+                if !deep && ctx.quick() {
+                    return None;
+                }
+                c.restricted(&|s| matches!(s, Script::Seq(0) | Script::Mixed(_)) || matches!(s, Script::Query(l, _) if *l == "three-regions" || *l == "same-region-twice"))
+            } else {
+                c.restricted(&|_| true)
+            }
+        })
+        .collect();
+    ctx.harness(Config::new("fmt_reader_cut1", 0), |ch| format_level::reader_cut_body(ch, &cut1, 1, &|_| 1));
+    // every pair of window boundaries on a grid of at most `g` offsets, readers without a BGZF layer
+    let g = ctx.by_tier(48usize, 128);
+    let cut2: Vec<RCase> = (if ctx.quick() { &small } else { &all })
+        .iter()
+        .filter(|c| !(c.workers_apply || matches!(c.format, Format::Csi | Format::Tbi)))
+        .filter_map(|c| c.restricted(&|s| ctx.thorough() || matches!(s, Script::Seq(0) | Script::Seq(1))))
+        .collect();
+    ctx.harness(Config::new("fmt_reader_cut2", 0), |ch| format_level::reader_cut_body(ch, &cut2, 2, &|c| c.bytes.len().div_ceil(g)));
+
+    // writers
     let wcases: Vec<format_writers::WCase> = docs.iter().filter(|d| !d.big).filter_map(format_writers::make_wcase).collect();
-    eprintln!("[C16] format level: {} writer cases", wcases.len());
-    ctx.harness(Config::new("fmt_writer_uniform", 0), |ch| format_writers::writer_body(ch, &wcases, &workers, &uniform));
-    ctx.harness(Config::new("fmt_writer", b), |ch| format_writers::writer_body(ch, &wcases, &workers, &choose));
-    let _ = Format::Bam;
+    let mut wsmall: Vec<&format_writers::WCase> = Vec::new();
+    for f in Format::ALL {
+        let mut of: Vec<&format_writers::WCase> = wcases.iter().filter(|c| c.format == f && c.sync_log[0].len() > 2).collect();
+        of.sort_by_key(|c| c.sync_bytes[0].len());
+        if let Some(c) = of.first() {
+            wsmall.push(c);
+        }
+    }
+    eprintln!("[C16] format level: {} writer cases ({} in the deep set: {})", wcases.len(), wsmall.len(), wsmall.iter().map(|c| c.name.as_str()).collect::<Vec<_>>().join(" "));
+    let wall: Vec<&format_writers::WCase> = wcases.iter().collect();
+    ctx.harness(Config::new("fmt_writer_uniform", bu), |ch| format_writers::writer_body(ch, &wall, &workers, &uniform));
+    ctx.harness(Config::new("fmt_writer", b), |ch| format_writers::writer_body(ch, &wall, &workers, &choose));
+    ctx.harness(Config::new("fmt_writer_deep", bd), |ch| format_writers::writer_body(ch, &wsmall, &workers, &choose));
 }
